@@ -8,6 +8,7 @@ package c07
 
 import (
 	"bufio"
+	"bytes"
 	"encoding/binary"
 	"encoding/json"
 	"fmt"
@@ -60,13 +61,20 @@ func (s *Shape) strs(k string) []string {
 
 type harnessBug string
 
-func loadShapes(data []byte) ([]*Shape, error) {
+func loadShapes(data []byte) ([]*Shape, error) { return loadShapesRange(data, 0, 1<<62) }
+
+// loadShapesRange parses only lines [from, to); the other entries stay nil.
+func loadShapesRange(data []byte, from, to int) ([]*Shape, error) {
 	var out []*Shape
-	sc := bufio.NewScanner(strings.NewReader(string(data)))
+	sc := bufio.NewScanner(bytes.NewReader(data))
 	sc.Buffer(make([]byte, 1<<20), 1<<24)
 	for sc.Scan() {
 		line := sc.Bytes()
 		if len(line) == 0 {
+			continue
+		}
+		if len(out) < from || len(out) >= to {
+			out = append(out, nil)
 			continue
 		}
 		var raw struct {
@@ -265,7 +273,7 @@ func childMain() int {
 		fmt.Fprintln(os.Stderr, "child: ", err)
 		return 4
 	}
-	shapes, err := loadShapes(data)
+	shapes, err := loadShapesRange(data, from, to)
 	if err != nil {
 		fmt.Fprintln(os.Stderr, "child: ", err)
 		return 4
